@@ -19,15 +19,9 @@ PROP = {
         "the model takes a String)",
     ],
     "gaps": [
-        "C10_balanced_scale_out / C10_balanced_scale_down are conditional on the shared invariants PosInv, TwinInv, "
-        "SlotInv (UmProofs/BrokerDefs.lean) holding for the cluster that migrate_slots* writes and for the cluster "
-        "after every interleaved failover; that reachable states satisfy them is C01's (and C04's) obligation and is "
-        "not re-proved here, so there is no single theorem over `Reachable s` yet. Everything else (planner "
-        "arithmetic, assign_dst_slots, commits in any order, clear flags, release, failover-invariance of the "
-        "profile) is proved outright",
-        "the end-to-end theorems start from a cluster in the exact balanced shape without pending tasks and a "
-        "single resize; chained resizes follow by re-applying them (the result is again in that shape), but the "
-        "induction over arbitrary operation sequences is left to the combination with C01",
+        "the reachable-state theorems are stated over C01's `Plan.ReachableB` (every intermediate store keeps every "
+        "cluster at <= SLOT_NUM masters), because add_cluster / the planners are only correct under that bound; they "
+        "use C01's `cinv_reachableB` (PosInv, TwinInv, SlotInv on those stores) and C04's name uniqueness",
     ],
     "trusted": [
         "hand-written transliteration UmModel/Broker.lean of every MetaStore mutator (replayed against the real "
@@ -59,13 +53,17 @@ CHECK = {
             "written cluster satisfies the shared invariants PosInv/TwinInv/SlotInv, every chain of commits in any "
             "order, with any clear flags and with failovers interleaved, that exhausts the pending tasks ends in a "
             "balanced cluster with the new master number - after a scale-in exactly the chunks >= n' are slot-less "
-            "(and released if a commit cleared them). Tie to the code: the model is replayed against the real "
+            "(and released if a commit cleared them). Over all boundedly reachable stores (any operation sequence "
+            "keeping every cluster at <= 16384 masters; C01's invariants discharge the hypotheses): every cluster "
+            "that is not migrating is Balanced (C10_reachable_balanced), every cluster carries CommitInv and the "
+            "profile of a balanced target so that committing its pending tasks in any order, failovers interleaved, "
+            "reaches Balanced (C10_reachable_on_track / _chain_balanced), and the four planner operations never panic "
+            "(C10_planner_no_panic, closing C12's PlannerPre). Tie to the code: the model is replayed against the real "
             "MetaStore on every run and the refusal / release / balance oracles are evaluated on the implementation "
             "after every operation (chains of resizes, random commit orders, failovers interleaved).",
-    "note": "Trusted: Lean kernel; hand-written broker model (validated differentially each run). Conditional part: "
-            "that the clusters written by migrate_slots* and by interleaved failovers satisfy PosInv/TwinInv/SlotInv "
-            "is C01's obligation (hypotheses of C10_balanced_scale_out/_down); a theorem over all reachable states "
-            "needs that combination. Observation: the refusal code is not always MIGRATION_RUNNING "
+    "note": "Trusted: Lean kernel; hand-written broker model (validated differentially each run). The reachable-state "
+            "theorems are over bounded reachability (<= 16384 masters per cluster at every step) and rest on C01's "
+            "cinv_reachableB. Observation: the refusal code is not always MIGRATION_RUNNING "
             "(migrate_slots_to_scale_down answers FREE_NODE_FOUND during a scale-out; proved as "
             "C10_refuse_other_code).",
 }
